@@ -395,7 +395,7 @@ type c12APICase struct {
 	Side  int    `json:"side"`
 }
 
-var c12APIKinds = []string{"close-then-io", "double-close", "write-after-closewrite", "early-closewrite", "failed-handshake-sticky", "early-appdata", "cancel", "write-error-sticky", "deadline-mid-record", "fatal-after-closewrite", "failed-closewrite"}
+var c12APIKinds = []string{"close-then-io", "double-close", "write-after-closewrite", "early-closewrite", "failed-handshake-sticky", "early-appdata", "cancel", "write-error-sticky", "deadline-mid-record", "fatal-after-closewrite", "failed-closewrite", "ignored-flood", "close-during-write"}
 
 func c12RunAPI(c c12APICase) (sig, msg string, nt bool) {
 	buf := make([]byte, 32)
@@ -619,6 +619,126 @@ func c12RunAPI(c c12APICase) (sig, msg string, nt bool) {
 			return "delivered-after-failed-write", fmt.Sprintf("peer received %d bytes that are no prefix of the failed payload (read error %v)", len(got), rerr), true
 		}
 		return "", "", true
+	case "ignored-flood":
+		// more ignorable records in a row than the receiver tolerates (warning alerts), then data: the
+		// first Read reports the error, later Reads keep failing and hand out nothing
+		cli, srv, _, err := c12Established(c.Suite)
+		if err != nil {
+			return "honest-failed", err.Error(), false
+		}
+		x, y := cli, srv
+		if c.Side == 1 {
+			x, y = srv, cli
+		}
+		n := []int{17, 18, 20, 40}[c.J%4]
+		for i := 0; i < n; i++ {
+			if err := vfPeerAlert(y, 1, 90); err != nil {
+				return "harness", err.Error(), false
+			}
+		}
+		if _, err := y.Write([]byte("AFTER-THE-FLOOD")); err != nil {
+			return "harness", err.Error(), false
+		}
+		n1, e1 := x.Read(buf)
+		if e1 == nil {
+			// fewer records may be tolerated than sent; then the data must simply arrive
+			return "", "", false
+		}
+		if n1 != 0 {
+			return "data-with-fatal-error", fmt.Sprintf("Read returned %d bytes together with %v", n1, e1), true
+		}
+		for i := 0; i < 3; i++ {
+			if n2, e2 := x.Read(buf); n2 != 0 || e2 == nil {
+				return "read-after-fatal", fmt.Sprintf("%d warning alerts in a row made Read fail with %v; Read %d afterwards returned (%d, %v): %q", n, e1, i+2, n2, e2, buf[:n2]), true
+			}
+		}
+		return "", "", true
+	case "close-during-write":
+		// Close arrives while a Write of another goroutine is stalled in the transport: the connection is
+		// closed all the same - a second Close reports that, later Writes fail
+		if c.J%2 == 1 {
+			// the Write is still inside its implicit handshake (the peer is silent)
+			ccfg, scfg := vfBaseConfigs(c.Suite, false)
+			sim := vfNewStream()
+			sim.monitor = false
+			sim.ends[0].lenientClose, sim.ends[1].lenientClose = true, true
+			var x *Conn
+			if c.Side == 0 {
+				x = Client(sim.ends[0], ccfg)
+			} else {
+				x = Server(sim.ends[1], scfg)
+			}
+			wdone := make(chan error, 1)
+			go func() { _, err := x.Write([]byte("hello")); wdone <- err }()
+			for i := 0; i < 200000; i++ {
+				sim.mu.Lock()
+				b := sim.ends[c.Side].blocked > 0
+				sim.mu.Unlock()
+				if b {
+					break
+				}
+				time.Sleep(50 * time.Microsecond)
+			}
+			ce := x.Close()
+			select {
+			case <-wdone:
+			case <-time.After(10 * time.Second):
+				return "close-does-not-unblock", "a Write waiting in its handshake did not return after Close", true
+			}
+			e2 := x.Close()
+			if e2 == nil || !errors.Is(e2, net.ErrClosed) {
+				return "second-close", fmt.Sprintf("Close (first result %v) arrived while a Write was waiting in its handshake; the second Close returned %v, want an error saying the connection is closed", ce, e2), true
+			}
+			if n, err := x.Write([]byte("x")); n != 0 || err == nil {
+				return "write-after-close", fmt.Sprintf("Write after Close returned (%d, %v)", n, err), true
+			}
+			return "", "", true
+		}
+		cli, srv, sim, err := c12Established(c.Suite)
+		if err != nil {
+			return "honest-failed", err.Error(), false
+		}
+		x, xe := cli, sim.ends[0]
+		if c.Side == 1 {
+			x, xe = srv, sim.ends[1]
+		}
+		xe.lenientClose = true
+		gate, stalled := make(chan struct{}), make(chan struct{})
+		var once sync.Once
+		xe.onWrite = func(int) {
+			once.Do(func() {
+				close(stalled)
+				<-gate
+			})
+		}
+		wdone := make(chan error, 1)
+		go func() { _, err := x.Write(c01Payload(3000, 1)); wdone <- err }()
+		select {
+		case <-stalled:
+		case <-time.After(10 * time.Second):
+			close(gate)
+			return "harness", "the Write never reached the transport", false
+		}
+		cdone := make(chan error, 1)
+		go func() { cdone <- x.Close() }()
+		var ce error
+		select {
+		case ce = <-cdone:
+		case <-time.After(10 * time.Second):
+			close(gate)
+			return "close-blocked", "Close did not return while a Write was stalled in the transport", true
+		}
+		close(gate)
+		<-wdone
+		_ = ce
+		e2 := x.Close()
+		if !errors.Is(e2, net.ErrClosed) {
+			return "second-close", fmt.Sprintf("Close (first result %v) arrived while a Write was stalled in the transport; the second Close returned %v, want an error saying the connection is closed", ce, e2), true
+		}
+		if n, err := x.Write([]byte("x")); n != 0 || err == nil {
+			return "write-after-close", fmt.Sprintf("Write after Close returned (%d, %v)", n, err), true
+		}
+		return "", "", true
 	case "failed-closewrite":
 		// CloseWrite whose close_notify does not get through (the link fails after J bytes of that
 		// transport write; later transport writes work again): the write side was shut down all the same -
@@ -670,6 +790,45 @@ func c12RunAPI(c c12APICase) (sig, msg string, nt bool) {
 		sim := vfNewStream()
 		sim.monitor = false
 		var x *Conn
+		if c.J >= 4 {
+			// the handshake fails on an expired deadline while the peer is silent; the application
+			// extends the deadline and calls Handshake again; a peer that then starts (over) must not
+			// be served: a failed handshake stays failed
+			var y *Conn
+			if c.Side == 0 {
+				x, y = Client(sim.ends[0], ccfg), Server(sim.ends[1], scfg)
+			} else {
+				x, y = Server(sim.ends[1], scfg), Client(sim.ends[0], ccfg)
+			}
+			x.SetDeadline(time.Now().Add(-time.Second))
+			e1 := x.Handshake()
+			if e1 == nil {
+				return "harness", "handshake with an expired deadline and a silent peer succeeded", false
+			}
+			x.SetDeadline(time.Time{})
+			ydone := make(chan error, 1)
+			go func() { ydone <- y.Handshake() }()
+			xdone := make(chan error, 1)
+			go func() { xdone <- x.Handshake() }()
+			var e2 error
+			select {
+			case e2 = <-xdone:
+			case <-time.After(10 * time.Second):
+				sim.ends[0].Close()
+				sim.ends[1].Close()
+				return "handshake-error-not-sticky", fmt.Sprintf("Handshake failed with %v; after the deadline was lifted a second Handshake call did not return at once but went on with the protocol", e1), true
+			}
+			sim.ends[0].Close()
+			sim.ends[1].Close()
+			<-ydone
+			if e2 == nil || e2.Error() != e1.Error() {
+				return "handshake-error-not-sticky", fmt.Sprintf("second Handshake returned %v after %v (deadline expired, then lifted)", e2, e1), true
+			}
+			if x.ConnectionState().HandshakeComplete {
+				return "complete-flag", "HandshakeComplete after failure", true
+			}
+			return "", "", true
+		}
 		if c.Side == 0 {
 			x = Client(sim.ends[0], ccfg)
 			sim.ends[1].inject([]byte{22, 1, 1, 0, 4, []byte{2, 11, 14, 20}[c.J%4], 0, 0, 0})
@@ -929,7 +1088,11 @@ func TestVF_C12(t *testing.T) {
 				maxJ := 0
 				switch kind {
 				case "failed-handshake-sticky":
+					maxJ = 4
+				case "ignored-flood":
 					maxJ = 3
+				case "close-during-write":
+					maxJ = 1
 				case "early-appdata":
 					maxJ = 7
 				case "cancel":
